@@ -125,6 +125,7 @@ def check(ctx):
     ctx.rule("R3", "no slice bound `-n` is evaluated unless n > 0 is established (x[:-0] == [] trap)", floor=1)
     ctx.rule("R5", "SQLite backend: the GC query cuts on the same age column the backend orders reads by, newest first", floor=4)
     ctx.rule("R4", "removal is control-dependent on `force or size_over < hsize`", floor=1)
+    ctx.rule("R11", "SQLite backend: collection trims the session's own database: every call made by a method of SqliteHistory to a function or class of the backend module that accepts a `filename` hands it the session's (`self.filename`) - the GC thread included; a call that leaves it out acts on the default database, so with a custom `*.sqlite` history file the session's table is never trimmed (and another one is)", floor=8)
     ctx.rule("R10", "the boot time a stale lock is judged by counts the time the machine was suspended: on Linux it is computed from CLOCK_BOOTTIME only (CLOCK_MONOTONIC stops during suspend: the 'boot' then lies later than the start of every session that was running before the suspend, and the GC unlocks - and deletes - a live session's file)", floor=1)
     ctx.rule("R9", "every history file is enumerated once: where the enumeration adds $XONSH_HISTORY_FILE 'unless it is listed already', the membership test looks for the path among paths - not among the (path, mtime) pairs the list still holds before the mtimes are dropped (always 'not listed': the file is counted twice and an unforced GC removes the oldest sessions of a history that fits its limit)", floor=1)
     ctx.rule("R8", "the live session's file stays locked for as long as the session lives: every whole-file rewrite of the session's own file by a JsonHistory method (other than creating it) dumps a mapping that carries the file's metadata over - loaded from the file, or written with `locked` and `ts` - a file without them is, to every GC pass, the oldest unlocked one", floor=1)
@@ -430,6 +431,7 @@ def check(ctx):
     _rewrite_keeps_lock(ctx)
     _enumerated_once(ctx)
     _boot_clock(ctx)
+    _sqlite_acts_on_own_file(ctx)
 
 
 SESSION_END = {
@@ -745,6 +747,51 @@ def _enumerated_once(ctx):
         ctx.ob("R9", st, f"`{short(c, 50)}` looks for a {want} among {have}s", ok, key="_xhj_get_history_files|membership-test-mixes-shapes", where=loc(c), detail=None if ok else f"the list holds {have} elements at this point, the needle is a {want}: the test cannot be true")
 
 
+def _sqlite_acts_on_own_file(ctx):
+    """R11: sibling agreement - every backend call of the session object names the session's database."""
+    from ..engine.loader import class_methods
+
+    SQ = "xonsh/history/sqlite.py"
+    sq = ctx.repo.module(SQ)
+    ms = class_methods(sq.cls("SqliteHistory"))
+    # callables of the module that take a `filename`: functions, and classes through their __init__
+    takes = {}
+    for q, f in sq.functions():
+        a = f.args
+        names = [x.arg for x in a.posonlyargs + a.args + a.kwonlyargs]
+        if "filename" not in names:
+            continue
+        if "." not in q:
+            takes[q] = (f, names.index("filename") if "filename" in [x.arg for x in a.posonlyargs + a.args] else None)
+        elif q.endswith(".__init__") and q.count(".") == 1 and q.split(".")[0] != "SqliteHistory":
+            pos = [x.arg for x in a.posonlyargs + a.args]
+            takes[q.split(".")[0]] = (f, pos.index("filename") - 1 if "filename" in pos else None)
+    if len(takes) < 5:
+        raise AnalysisError(f"{SQ}: fewer than 5 callables with a `filename` parameter ({sorted(takes)})")
+    n = 0
+    for mname, m in sorted(ms.items()):
+        mdefs = df.all_defs(m)
+        for c in calls_in(m, local=False):
+            nm = call_name(c)
+            if nm not in takes:
+                continue
+            _, pos = takes[nm]
+            arg = kwarg(c, "filename")
+            if arg is None and pos is not None and pos < len(c.args) and not any(isinstance(a_, ast.Starred) for a_ in c.args):
+                arg = c.args[pos]
+            own = False
+            if arg is not None:
+                e = df.resolve_copy(mdefs, arg)
+                own = unparse(e) == "self.filename"
+                if not own and mname == "__init__" and isinstance(e, ast.Name):
+                    # inside the constructor: the very local that is stored as self.filename
+                    own = any(isinstance(a_, ast.Assign) and any(unparse(t) == "self.filename" for t in a_.targets) and unparse(a_.value) == e.id for a_ in walk_local(m))
+            n += 1
+            ctx.ob("R11", f"{SQ}:SqliteHistory.{mname}", f"`{short(c, 60)}` acts on the session's own database (filename=self.filename)", own, key=f"SqliteHistory.{mname}|{nm}|acts-on-default-database", where=loc(c), detail=None if own else ("no filename is handed over: the callee falls back to the default database" if arg is None else f"filename is `{short(arg, 40)}`"))
+    if n == 0:
+        raise AnalysisError(f"{SQ}:SqliteHistory: no backend call found")
+
+
 def _boot_clock(ctx):
     UP = "xonsh/xoreutils/uptime.py"
     um = ctx.repo.module(UP)
@@ -794,3 +841,5 @@ META = {
     "first element; the first tuple element is the closing timestamp (read, not checked).",
     "more": "Also decided: a session's file is marked unlocked only under the flusher's at-exit mode (or by the reboot repair under its boot test), and only session-end code asks for that mode. The limit text is matched in full and its unit resolved by one exact table lookup (`1,000 files` must not become 1 command, `MiB` not minutes). Every whole-file rewrite of the live session's own file carries the lock metadata over (`history clear` must not turn the live file into the oldest unlocked one). The 'unless listed already' membership test of the enumeration looks for a path among paths, not among (path, mtime) pairs.",
 }
+
+META["more"] += " The Linux boot time is computed from a clock that keeps counting during suspend. Every backend call of SqliteHistory names the session's own database, the GC thread included (defect repaired: the GC trimmed the default database)."
